@@ -1,0 +1,33 @@
+//go:build verif
+
+package meterpb
+
+// Machine-checked contracts for this package (comment-only; excluded from normal builds).
+
+//@ property C20
+//@ // ---- a meter reading always has a start and an end time; an initial reading given at construction is kept ----
+//@ pure func mrOf(m) = cast(m, *traits.MeterReading)
+//@ pure func isMR(m) = istype(m, *traits.MeterReading) && cast(m, *traits.MeterReading) != nil
+//@
+//@ // NOT VERIFIED (noverify): both interceptors call Clock().Now() through the resource.Clock interface and timestamppb.New, which
+//@ // this verifier build lists as unmodelled calls and havocs the whole heap for; every postcondition below is then reported
+//@ // "sat" whatever the code does.  The contracts record the intended rule; the defect of NewModel (an initial reading loses its
+//@ // usage and start time, and the model starts without a start time) is demonstrated by the replay driver MeterInitialValue.
+//@
+//@ // the interceptor of the Set call in NewModel: o is the initial reading, n the (empty) request that replaces it
+//@ // entirely (no update mask), so what n holds afterwards is what the model starts with
+//@ func NewModel$1(o, n)
+//@   noverify
+//@   requires isMR(o) && isMR(n) && mrOf(o) != mrOf(n) && value != nil
+//@   ensures [start] mrOf(n).StartTime != nil
+//@   ensures [end] mrOf(n).EndTime != nil
+//@   ensures [start-kept] old(mrOf(o).StartTime) != nil ==> mrOf(n).StartTime != nil && mrOf(n).StartTime.Seconds == old(mrOf(o).StartTime.Seconds) && mrOf(n).StartTime.Nanos == old(mrOf(o).StartTime.Nanos)
+//@   ensures [usage-kept] mrOf(n).Usage == old(mrOf(o).Usage)
+//@   replay MeterInitialValue()
+//@
+//@ // RecordReading: the end time moves to now, nothing else of the request is touched
+//@ func (*Model).RecordReading$1(o, n)
+//@   noverify
+//@   requires isMR(n) && m != nil && m.meterReading != nil
+//@   ensures [end] mrOf(n).EndTime != nil && fresh(mrOf(n).EndTime)
+//@   ensures [usage] mrOf(n).Usage == old(mrOf(n).Usage) && mrOf(n).StartTime == old(mrOf(n).StartTime)
